@@ -1889,6 +1889,11 @@ void process_metadata_stack(mmd_engine * e, scratch_pad * scratch) {
 			header_level = 1;
 		}
 
+		if (header_level > 1000) {
+			// (The outline writers add this to a short)
+			header_level = 1000;
+		}
+
 		scratch->base_header_level = header_level;
 	}
 }
